@@ -383,5 +383,5 @@ MUTANTS = [
 
 
 def run(ctx):
-    ctx.search("cut", cut_cases(), quick=1500, thorough=8000)
-    ctx.search("allcuts", sessions(), quick=100, thorough=800)
+    ctx.search("cut", cut_cases(), quick=1500, thorough=10000)
+    ctx.search("allcuts", sessions(), quick=100, thorough=350)
